@@ -51,3 +51,53 @@ Definition flat (f : list dt) : list tok := flat_map postorder f.
 
 Lemma postorder_node r b e kids : postorder (Node r b e kids) = flat kids ++ [(r, (b, e))].
 Proof. reflexivity. Qed.
+
+(** induction principle for expressions (nested lists) *)
+Section ExprInd.
+Variable P : expr -> Prop.
+Hypothesis Hdot : P EDot.
+Hypothesis Hchar : forall c, P (EChar c).
+Hypothesis Hrange : forall lo hi, P (ERange lo hi).
+Hypothesis Hname : forall r, P (EName r).
+Hypothesis Hpred : forall k, P (EPred k).
+Hypothesis Hstate : forall k, P (EState k).
+Hypothesis Hact : forall k, P (EAct k).
+Hypothesis Hnil : P ENil.
+Hypothesis Hseq : forall es, Forall P es -> P (ESeq es).
+Hypothesis Halt : forall es, Forall P es -> P (EAlt es).
+Hypothesis Hand : forall e, P e -> P (EAnd e).
+Hypothesis Hnot : forall e, P e -> P (ENot e).
+Hypothesis Hquery : forall e, P e -> P (EQuery e).
+Hypothesis Hstar : forall e, P e -> P (EStar e).
+Hypothesis Hplus : forall e, P e -> P (EPlus e).
+Hypothesis Hpush : forall e, P e -> P (EPush e).
+Hypothesis Hswitch : forall cs d, Forall (fun c => P (snd c)) cs -> P d -> P (ESwitch cs d).
+
+Fixpoint expr_ind2 (e : expr) : P e :=
+  match e with
+  | EDot => Hdot
+  | EChar c => Hchar c
+  | ERange lo hi => Hrange lo hi
+  | EName r => Hname r
+  | EPred k => Hpred k
+  | EState k => Hstate k
+  | EAct k => Hact k
+  | ENil => Hnil
+  | ESeq es => Hseq es ((fix go (l : list expr) : Forall P l :=
+                           match l with [] => Forall_nil P | x :: l' => Forall_cons x (expr_ind2 x) (go l') end) es)
+  | EAlt es => Halt es ((fix go (l : list expr) : Forall P l :=
+                           match l with [] => Forall_nil P | x :: l' => Forall_cons x (expr_ind2 x) (go l') end) es)
+  | EAnd e1 => Hand e1 (expr_ind2 e1)
+  | ENot e1 => Hnot e1 (expr_ind2 e1)
+  | EQuery e1 => Hquery e1 (expr_ind2 e1)
+  | EStar e1 => Hstar e1 (expr_ind2 e1)
+  | EPlus e1 => Hplus e1 (expr_ind2 e1)
+  | EPush e1 => Hpush e1 (expr_ind2 e1)
+  | ESwitch cs d =>
+      Hswitch cs d ((fix go (l : list (list rune * expr)) : Forall (fun c => P (snd c)) l :=
+                       match l with
+                       | [] => Forall_nil _
+                       | x :: l' => Forall_cons (P := fun c => P (snd c)) x (expr_ind2 (snd x)) (go l')
+                       end) cs) (expr_ind2 d)
+  end.
+End ExprInd.
